@@ -72,6 +72,12 @@ class RawStream(FM.FormulaStream):
     def to_coq(self, case, obs):
         return FM.term_raw(case, obs)
 
+    def oracle(self, case, obs):
+        out = []
+        if case.get("wellformed") and not obs.get("no_inputs"):
+            FM.judge_rows(case, obs, lambda row: FM.raw_ref(case, row), out)
+        return out
+
     def key(self, case, obs):
         if len(case["calls"]) < 3:
             return None
@@ -92,8 +98,50 @@ class RawStream(FM.FormulaStream):
         return out + FM.row_labels(case)
 
 
+class Ho3Stream(FM.FormulaStream):
+    """3-phase composition (FormulaEngine3Phase / HigherOrderFormulaBuilder3Phase.build): phase p of every
+    Sample3Phase must be the tree evaluated on the phase-p inputs, under the build's nones_are_zeros."""
+    name = "three_phase"
+    check_fn = "check_ho_multi"
+    n_quick = 150
+    n_thorough = 3000
+
+    def gen(self, rng, tier):
+        for nz in (False, True):
+            yield {"kind": "ho3", "tree": ["e", ["s", 0], "-", 1], "nz": nz, "share": False, "src_nz": {"0": False, "1": False},
+                   "rows": [{"0:0": 1, "0:1": "none", "0:2": 3, "1:0": 10, "1:1": 20, "1:2": "nan"}, {"0:0": 4, "0:1": 5, "0:2": 6, "1:0": 1, "1:1": 1, "1:2": 1}]}
+        for _ in range(self.n_quick if tier == "quick" else self.n_thorough):
+            yield FM.gen_ho3_case(rng)
+
+    def to_coq(self, case, obs):
+        return FM.term_ho3(case, obs)
+
+    def oracle(self, case, obs):
+        out = []
+        src = case.get("src_nz", {})
+        for ph, d in enumerate(obs["phases"]):
+            sub = []
+            FM.judge_rows({"rows": [FM.phase_row(r, ph) for r in case["rows"]]}, d,
+                          lambda row: FM.eval_hb(case["tree"], row, lambda n: case["nz"] or src.get(str(n), False)), sub)
+            for v in sub:
+                v["what"] = v["what"].split(":")[0] + f": phase {ph + 1}: " + v["what"].split(":", 1)[1]
+            out += sub
+        return out
+
+    def key(self, case, obs):
+        return json.dumps([case["tree"], case["rows"]], sort_keys=True)
+
+    def labels(self, case, obs):
+        return [f"nz={case['nz']}"] + FM.row_labels(case)
+
+
+class PoolStream(c05.PoolStream):
+    n_quick = 120
+    n_thorough = 3000
+
+
 def streams():
-    return [StrStream(), HoStream(), RawStream(), FM.FloatBoundaryStream()]
+    return [StrStream(), HoStream(), RawStream(), FM.FloatBoundaryStream(), PoolStream(), Ho3Stream()]
 
 
 ASSUMPTIONS = [
